@@ -23,6 +23,26 @@ def cases(tier):
             # h = 4 with at least two in-place statements, reduced templates
             p4 = [p for p in vp.programs(base, 4, quick=True, require_inplace=True) if sum(vp.is_inplace(l) for l in p) >= 2]
             progs += p4[::3]
+        elif not fo:
+            # quick: the 4-statement histories "two views, .shape assigned to a tensor of the family, then an in-place update"
+            # (the shortest shape of the sibling-view defect repaired in /repo; see known_findings.json), built directly
+            shape = vp.BASES[base]
+            for v1 in vp.VIEWS_Q:
+                for v2 in vp.VIEWS_Q:
+                    for s2 in ("t", "v"):
+                        l1, l2 = v1.format(d="v", s="t"), v2.format(d="w", s=s2)
+                        if not vp.well_typed([l1, l2], shape):
+                            continue
+                        for tgt in ("t", "v", "w"):
+                            for shp in ("(3, 2)", "(6,)", "(2, 3)", "(1, 6)"):
+                                l3 = "%s.shape = %s" % (tgt, shp)
+                                if not vp.well_typed([l1, l2, l3], shape):
+                                    continue
+                                for tpl in ("{t}[...] = y0", "{t}[:1] = c1", "{t} *= k"):
+                                    for t4 in ("t", "v", "w"):
+                                        l4 = tpl.format(t=t4)
+                                        if vp.well_typed([l1, l2, l3, l4], shape):
+                                            progs.append([l1, l2, l3, l4])
         size = 60
         for i in range(0, len(progs), size):
             out.append({"name": "%s/%d" % (base, i), "base": base, "progs": progs[i:i + size]})
